@@ -6,6 +6,9 @@
 (* Nothing here depends on what the columns are called: names, the name of the sub-table column  *)
 (* and the rendering of y values as column labels (LabelEnc / RenderVal) are data of the case;   *)
 (* MC_RegroupN enumerates them (names and labels that contain each other, labels of other types). *)
+(* RegroupSession.tla reads the same verdicts over HISTORIES of calls on caller-owned objects     *)
+(* (UnlistVerdictG, UnpivotVerdictSel: the forms for operands that were sorted / edited before    *)
+(* and for unpivot's {name: columns} spelling); MC_RegroupS enumerates the histories.             *)
 EXTENDS Join, Order
 
 \* ---- key classes ------------------------------------------------------------------------------
